@@ -46,7 +46,10 @@ type Proof struct {
 }
 
 func (p *Proof) IsValid() bool {
-	if p == nil {
+	if p == nil || p.group == nil || p.Commitment == nil {
+		return false
+	}
+	if curve.IsNilPoint(p.A) || curve.IsNilPoint(p.B) || curve.IsNilPoint(p.C) || curve.IsNilScalar(p.Z1) || curve.IsNilScalar(p.Z2) {
 		return false
 	}
 	if p.A.IsIdentity() || p.B.IsIdentity() || p.C.IsIdentity() {
